@@ -470,3 +470,47 @@ def discrete_delay_next_to_gamma_kernel_on_one_source(case):
         if any(e.get("sp") is not None for e in es) and any(e.get("d") is not None and e.get("sp") is None for e in es):
             return True
     return False
+
+
+def _past_coeffs(ast, coef=1.0, out=None):
+    """numeric coefficient with which each past() term enters its additive context (None when it sits under a
+    non-numeric factor or a function call)"""
+    out = [] if out is None else out
+    k = ast[0]
+    if k == "past":
+        out.append(coef)
+    elif k == "neg":
+        _past_coeffs(ast[1], None if coef is None else -coef, out)
+    elif k == "bin":
+        op, a, b = ast[1], ast[2], ast[3]
+        if op == "+":
+            _past_coeffs(a, coef, out); _past_coeffs(b, coef, out)
+        elif op == "-":
+            _past_coeffs(a, coef, out); _past_coeffs(b, None if coef is None else -coef, out)
+        elif op == "*":
+            if a[0] == "num":
+                _past_coeffs(b, None if coef is None else coef * a[1], out)
+            elif b[0] == "num":
+                _past_coeffs(a, None if coef is None else coef * b[1], out)
+            else:
+                _past_coeffs(a, None, out); _past_coeffs(b, None, out)
+        else:
+            _past_coeffs(a, None, out); _past_coeffs(b, None, out)
+    elif k in ("pow",):
+        _past_coeffs(ast[1], None, out)
+    elif k == "call":
+        for x in ast[2:]:
+            _past_coeffs(x, None, out)
+    return out
+
+
+@predicate("F-10a")
+def negated_past_term(case):
+    """a delayed term with a negative numeric coefficient next to other additive terms (x' = p - x(t-tau),
+    x' = p - 0.5*past(x,tau), -x - x(t-tau)): the code generator expects the past() call itself where it finds
+    c*past(...) and compilation fails (TypeError 'Cannot convert expression to float' / KeyError).  The forms
+    x' = -x(t-tau) and x' = p - a*x(t-tau) (parameter coefficient) compile."""
+    for ast in _all_asts(case):
+        if any(c is not None and c < 0 for c in _past_coeffs(ast)):
+            return True
+    return False
